@@ -20,11 +20,8 @@ From Run Require Import GenFermi.
 
 Lemma gen_par_tab_ok kind n i : (i < n)%nat -> gen_par_tab kind n i = par_tab kind n i.
 Proof.
-  intros Hi. unfold gen_par_tab, par_tab, gen_par_za, gen_par_zb, gen_par_x, par_za, par_zb, par_x. cbv zeta.
-  destruct i as [|i]; [cbn [Z.of_nat Z.eqb Nat.eqb]|
-    replace (Z.of_nat (Datatypes.S i) =? 0)%Z with false by (symmetry; apply Z.eqb_neq; lia); cbn [Nat.eqb]];
-  destruct kind; rewrite <- ?app_assoc;
-    repeat (f_equal; try reflexivity; try lia).
+  intros Hi. unfold gen_par_tab, par_tab, gen_par_za, gen_par_zb, gen_par_x, par_za, par_zb, par_x.
+  destruct kind; tab_bridge.
 Qed.
 
 Section Weight.
